@@ -39,10 +39,10 @@ na = [{"property_id": p["id"], "reason": na_reasons.get(p["id"], "check not buil
       for p in props if p["id"] not in claims]
 m = {"version": 1, "setup_cmd": "./setup.sh",
      "hooks": {"guard": "verif-overlay (no build tag and no hook commit in /repo: instrumentation exists only as a `go build -overlay` produced by /verif/harness/instrument)",
-               "enable": "./check <ID> runs harness/instrument, which writes rewritten copies of repository sources (sync -> vsync, time.Now -> vclock, math/rand + dry.RandomBytes -> vrand, channel operations/go statements/selects bracketed by scheduler hooks, owned map order) and adds export files from harness/_overlay, then builds the check with `go build -overlay`; /repo is never modified",
+               "enable": "./check <ID> runs harness/instrument, which writes rewritten copies of repository sources (sync -> vsync, time.Now -> vclock, math/rand + dry.RandomBytes -> vrand, channel operations/go statements/selects bracketed by scheduler hooks, owned map order) and adds export files from harness/_overlay, then builds the check with `go build -overlay` (and, for checks with a separate free-running pass, harness/checks/racepass with `-race` and the same overlay); /repo is never modified",
                "baseline_off_cmd": "./baseline.sh", "source_commits": [], "add_only": True},
      "engines": [{"name": "harness", "path": "/verif/harness", "serves_properties": sorted(claims),
-                  "kind_free_text": "hand-written Go explorer: deviation-bounded product enumerator (E1), cooperative scheduler + DFS over schedules with preemption bounding (E2), explicit-state search over histories (E3), in-process reference servers with fault injection (E4); reference models R1-R7 under harness/ref"}],
+                  "kind_free_text": "hand-written Go explorer: deviation-bounded product enumerator (E1), cooperative scheduler + DFS over schedules with preemption bounding (E2), explicit-state search over histories (E3), in-process reference servers with fault injection (E4); separate free-running pass under the Go race detector (harness/freepass, harness/checks/racepass); reference models R1-R7 under harness/ref"}],
      "checks": checks, "not_applicable": na,
      "notes": "See DESIGN.md. known_findings.jsonl lists recorded defects (status known) and repaired ones (status fixed; they suppress nothing). Exit 2 from a check means harness error, never a verdict."}
 json.dump(m, open(os.path.join(ROOT, 'MANIFEST.json'), 'w'), indent=1)
